@@ -139,6 +139,10 @@ def units(tier, seed):
     for mode in ("single-max", "single-min", "multi-FT", "multi-boolT", "multi-agg"):
         us.append({"kind": "aggregate", "mode": mode})
     us.append({"kind": "trackers"})
+    # Population objects over two problems / trackers sharing individuals, in every order of three constructions
+    for n in (1, 2, 3):
+        for pop in itertools.product(["new", "has_p", "has_q", "stamped"], repeat=n):
+            us.append({"kind": "populations", "pop": list(pop)})
     for step in ("default", "elitism-heavy", "selection-only", "mutation05", "mutation-then-tournament", "novelty-then-tournament"):
         for ev in ("seq", "vpar"):
             us.append({"kind": "gp", "step": step, "evaluator": ev, "max_dev": 1 if tier == "quick" else 2,
@@ -499,7 +503,76 @@ def run_trackers(unit) -> UnitResult:
     return r
 
 
+def run_populations(unit) -> UnitResult:
+    """Population evaluates every individual it is given through its tracker: histories of three Population
+    constructions over two problems (each with its own tracker) on shared individual objects."""
+    from geneticengine.algorithms.gp.population import Population
+
+    r = UnitResult()
+    for plan in itertools.product("PQ", repeat=3):
+        rep = StubRepresentation(3)
+        calls = {"P": [], "Q": []}
+        probs = {"P": SingleObjectiveProblem(lambda g: (calls["P"].append(g.v), TABLE[g.v % 4])[1], minimize=False),
+                 "Q": SingleObjectiveProblem(lambda g: (calls["Q"].append(g.v), TABLE[g.v % 4] + 100.0)[1], minimize=True)}
+        trackers = {k: SingleObjectiveProgressTracker(probs[k], SequentialEvaluator()) for k in "PQ"}
+        inds = []
+        pre = SequentialEvaluator()
+        pre_calls = {"P": 0, "Q": 0}
+        for i, k in enumerate(unit["pop"]):
+            ind = Individual(rep._new(i), rep)
+            if k == "has_p":
+                pre.evaluate(probs["P"], [ind])
+                pre_calls["P"] += 1
+            elif k == "has_q":
+                pre.evaluate(probs["Q"], [ind])
+                pre_calls["Q"] += 1
+            elif k == "stamped":
+                ind.metadata["generation"] = 7  # e.g. a survivor of an earlier run, injected as initial population
+            inds.append(ind)
+        w = {"unit": unit, "plan": "".join(plan)}
+        feat = {"evaluator": "seq", "several_problems": len(set(plan)) > 1, "prestamped": "stamped" in unit["pop"]}
+        r.executions += 1
+        r.count("histories")
+        r.nontrivial += 1
+        try:
+            for gen, which in enumerate(plan):
+                Population(iter(inds), trackers[which], generation=gen)
+                missing = [i.genotype.v for i in inds if not i.has_fitness(probs[which])]
+                if missing:
+                    r.add_violation(Violation(PROP, "Population", "member-without-fitness", feat, w,
+                                              f"population {unit['pop']}, constructions {''.join(plan)}: after construction {gen} over problem {which} "
+                                              f"individuals {missing} have no fitness for it"))
+                    break
+            else:
+                for which in "PQ":
+                    seen = which in plan
+                    for i in inds:
+                        if i.has_fitness(probs[which]):
+                            want = TABLE[i.genotype.v % 4] + (100.0 if which == "Q" else 0.0)
+                            f = i.get_fitness(probs[which])
+                            if f.fitness_components != [want] or f.maximizing_aggregate != (-want if which == "Q" else want):
+                                r.add_violation(Violation(PROP, "Population", "wrong-fitness-or-pairing", feat, w,
+                                                          f"population {unit['pop']} plan {''.join(plan)}: individual {i.genotype.v} problem {which}: {f}"))
+                    n_calls = len(calls[which])
+                    if len(set(calls[which])) != n_calls:
+                        r.add_violation(Violation(PROP, "Population", "evaluated-twice", feat, w,
+                                                  f"population {unit['pop']} plan {''.join(plan)}: problem {which} invoked on {calls[which]}"))
+                    got = trackers[which].get_number_evaluations()
+                    r.count("invocation_counts_checked")
+                    if got != n_calls - pre_calls[which]:
+                        r.add_violation(Violation(PROP, "ProgressTracker.get_number_evaluations", "counter-differs-from-invocations", feat, w,
+                                                  f"population {unit['pop']} plan {''.join(plan)}: tracker of {which} counts {got}, its function was invoked "
+                                                  f"{n_calls - pre_calls[which]} times through it"))
+        except Exception as e:  # noqa
+            r.add_violation(Violation(PROP, "Population", "raised", dict(feat, exc=type(e).__name__), w, f"population {unit['pop']} plan {''.join(plan)}: {exc_brief(e)}"))
+    r.states = 8
+    r.samples.append({"populations": unit["pop"]})
+    return r
+
+
 def run_unit(unit) -> UnitResult:
+    if unit["kind"] == "populations":
+        return run_populations(unit)
     return {"pop": run_pop, "aggregate": run_aggregate, "gp": run_gp, "trackers": run_trackers}[unit["kind"]](unit)
 
 
